@@ -341,7 +341,9 @@ func runCase(r *h.Run, c caseT) {
 			}
 		}(p, c.Seed+int64(p.id))
 	}
-	wg.Wait()
+	// the senders are not waited for: a connection that has gone deaf blocks its
+	// sender once the socket buffers are full, and that state must be decided below
+	// (the deferred Close of the peers releases a blocked sender)
 	var want int64
 	for _, p := range peers {
 		want += int64(p.total)
